@@ -55,6 +55,8 @@ func finish(w *World, r *ev.Result) {
 		r.NonTrivial = st["gc-collected-with-open-tx"] > 0
 	case "c13":
 		r.NonTrivial = st["late-write-with-RU-observer"] > 0
+	case "c11":
+		r.NonTrivial = st["begin"] > 0 && (st["err-result"] > 0 || st["commit-conflict"] > 0 || st["late-write"] > 0)
 	case "c14":
 		r.NonTrivial = st["overwrite"] > 0 && st["del"] > 0 && st["rollback"] > 0 && st["commit-conflict"] > 0 && st["intx-superseded"] > 0
 	case "c17":
